@@ -565,7 +565,7 @@ bool small_ids_policy(const std::string& n) {
     return n == "vec" || n == "dfv" || n == "vecx";
 }
 bool no_alias_policy(const std::string& n) {
-    return n == "sdbg" || n == "srel";
+    return n == "sdbg" || n == "srel" || n == "sofd" || n == "sofr";
 }
 
 const std::vector<std::string> ALL_POLS = {
@@ -2019,6 +2019,10 @@ Plan gen_C16(std::uint64_t seed, int tier) {
                                      "cind", "sdbg", "thr", "vec"};
     g.r.shuffle(pool);
     pool.resize(2);
+    // the callers' policy dispatches through generated static offsets
+    bool static_offsets = g.r.chance(0.12);
+    if (static_offsets)
+        pool[0] = "sofd";
     g.p.pols = pool;
     bool small = small_ids_policy(pool[0]) || small_ids_policy(pool[1]);
     BasicOpts o;
@@ -2035,6 +2039,13 @@ Plan gen_C16(std::uint64_t seed, int tier) {
     auto all = basic_registry(g, o, 0);
     g.ev_load(g.order(all));
     g.ev_update(0);
+    if (static_offsets) {
+        Event e;
+        e.op = OP_OFFSETS;
+        e.pol = 0;
+        e.per_method = (int)g.r.below(2);
+        g.p.events.push_back(e);
+    }
     BasicOpts ob = o;
     ob.min_meth = 1;
     ob.max_meth = 2;
